@@ -70,7 +70,8 @@ class Ord:
     def __le__(self, o): return self.rank <= _rank(o)
     def __gt__(self, o): return self.rank > _rank(o)
     def __ge__(self, o): return self.rank >= _rank(o)
-    def __eq__(self, o): return isinstance(o, Ord) and self.rank == o.rank
+    def __eq__(self, o): return isinstance(o, Ord) and self.rank == o.rank and type(self.rank) is type(o.rank) or (
+        isinstance(o, Ord) and self.rank == o.rank)
     def __ne__(self, o): return not self.__eq__(o)
     def __hash__(self): return hash(self.rank)
     def __repr__(self): return f"v{self.rank}"
@@ -112,6 +113,8 @@ class NumOrd(Ord):
 def _rank(o):
     if isinstance(o, Ord):
         return o.rank
+    if isinstance(o, float) and o in (float("inf"), float("-inf")):
+        return o          # "no loss yet" sentinels of a running minimum / maximum
     raise Unsupported("a loss compared with something that is not a loss")
 
 
@@ -510,8 +513,10 @@ class Evaluator:
             return CHAIN_T
         if q in (ATRANS_Q, "flowjax.distributions.Transformed"):
             return TRANS_T if q == ATRANS_Q else ("builtin", "Transformed")
-        if q in ("jax.numpy", "numpy", "jax"):
+        if q in ("jax.numpy", "numpy", "jax", "math"):
             return ("module", q)
+        if q in ("math.inf", "jax.numpy.inf", "numpy.inf"):
+            return float("inf")
         if q.startswith(("jax.numpy.", "numpy.")) and last in _NP_ORDER_FUNCS:
             return ("builtin", "np." + last)
         if last in ("AbstractUnwrappable", "NonTrainable", "Parameterize", "Lambda", "BijectionReparam", "Where",
@@ -608,7 +613,12 @@ class Evaluator:
                 if isinstance(op, (ast.Is, ast.IsNot)):
                     res = left is right
                     res = res if isinstance(op, ast.Is) else not res
-                elif isinstance(left, Ord) and isinstance(right, Ord) and isinstance(op, (ast.Eq, ast.NotEq, ast.Lt, ast.LtE, ast.Gt, ast.GtE)):
+                elif (isinstance(left, Ord) or isinstance(right, Ord)) and all(
+                        isinstance(x, Ord) or (isinstance(x, float) and x in (float("inf"), float("-inf"))) for x in (left, right)) \
+                        and isinstance(op, (ast.Eq, ast.NotEq, ast.Lt, ast.LtE, ast.Gt, ast.GtE)):
+                    if not isinstance(left, Ord):      # inf < v  is  v > inf
+                        left, right = right, left
+                        op = {ast.Lt: ast.Gt(), ast.LtE: ast.GtE(), ast.Gt: ast.Lt(), ast.GtE: ast.LtE()}.get(type(op), op)
                     res = {ast.Eq: left == right, ast.NotEq: left != right, ast.Lt: left < right, ast.LtE: left <= right,
                            ast.Gt: left > right, ast.GtE: left >= right}[type(op)]
                 elif isinstance(op, (ast.Eq, ast.NotEq)):
@@ -937,6 +947,9 @@ class Evaluator:
             return self.np_order(f[1][3:], args, kwargs)
         if isinstance(f, tuple) and f[0] == "builtin" and f[1] == "float" and args and isinstance(args[0], Ord):
             return args[0]
+        if isinstance(f, tuple) and f[0] == "builtin" and f[1] == "float" and len(args) == 1 and isinstance(args[0], str) \
+                and args[0].strip().lower().lstrip("+-") in ("inf", "infinity"):
+            return float(args[0])
         if isinstance(f, tuple) and f[0] == "builtin":
             n = f[1]
             if n == "isinstance":
